@@ -64,7 +64,7 @@ func pow8(i int) int64 {
 func svKvTok(kvs []*goatorepo.KeyValue) int64 {
 	var tok int64
 	for _, kv := range kvs {
-		if kv.Key == "seq" {
+		if kv.Key == "seq" || strings.EqualFold(kv.Key, "grpc-timeout") {
 			continue
 		}
 		var i int
@@ -79,7 +79,7 @@ func svKvTok(kvs []*goatorepo.KeyValue) int64 {
 func svMDTok(md metadata.MD) int64 {
 	var tok int64
 	for k, vs := range md {
-		if k == "seq" {
+		if k == "seq" || k == "grpc-timeout" {
 			continue
 		}
 		var i int
@@ -160,6 +160,8 @@ type FrameSpec struct {
 	Body   *int64    `json:"body,omitempty"`
 	Trl    string    `json:"trl,omitempty"` // "" | "none" | "ok:<tok>" | "bad"
 	Rst    string    `json:"rst,omitempty"` // "" | "rst" | "other" (a Reset whose type is not RST_STREAM)
+	// GRPC-Timeout header value (e.g. "1S"); request deadlines are outside Model/Server.v: only in spec-only cases
+	Timeout string `json:"timeout,omitempty"`
 }
 
 func (f *FrameSpec) hasHdr() bool { return f.Hdr != "none" && f.Hdr != "" }
@@ -204,6 +206,9 @@ func (f *FrameSpec) build(seq int) *Rpc {
 			h.Headers = svMdKVs(n)
 		}
 		h.Headers = append(h.Headers, &goatorepo.KeyValue{Key: "seq", Value: strconv.Itoa(seq)})
+		if f.Timeout != "" {
+			h.Headers = append(h.Headers, &goatorepo.KeyValue{Key: "GRPC-Timeout", Value: f.Timeout})
+		}
 		r.Header = h
 	}
 	if f.Status != nil {
@@ -324,6 +329,8 @@ func (h *HopSpec) err() error {
 type SAct struct {
 	Op   string `json:"op"` // deliver | failread | wfail | wblock | stop | cancelserve | hstep | tick
 	Kind string `json:"kind,omitempty"` // wfail: the error the transport returns: "" plain | deadline | canceled | eof
+	// NoWait: the next action follows at once, no quiescent point (and no observation) in between
+	NoWait bool `json:"nowait,omitempty"`
 	D    int64  `json:"d,omitempty"`    // tick: milliseconds of virtual time
 	F   *FrameSpec `json:"f,omitempty"`
 	On  bool       `json:"on,omitempty"`
@@ -820,6 +827,13 @@ func runServerScenario(t *testing.T, idx int, kind string, next func(r *svRig, s
 			wd.step = step
 			wd.mu.Unlock()
 			if !rig.do(a) {
+				continue
+			}
+			if a.NoWait {
+				res.Acts = append(res.Acts, *a)
+				res.CoqActs = append(res.CoqActs, a.coq())
+				res.Obs = append(res.Obs, svObs{Inbox: -1})
+				res.CoqObs = append(res.CoqObs, "(mkObs [] [] None (-1) [] [] false 0 0 0 false)")
 				continue
 			}
 			synctest.Wait()
